@@ -35,7 +35,7 @@ chk.extra['rule'] = ('residue chains (2-4 residues, template atoms N CA C O CB [
                      'iteration; distinct = distinct protocol line')
 chk.trusted.append('harness/c14.py: object construction, recording wrappers, canonicalisation, Python oracle '
                    '(own brute-force placement enumeration and exact-cover search)')
-chk.lean(['VermouthProps.C14'], 'driver_c14')
+chk.lean(['VermouthProps.C14', 'VermouthProps.C14_Whole'], 'driver_c14')
 
 import networkx as nx
 import vermouth
